@@ -260,15 +260,15 @@ Lemma copy_from_extent_selection o e inv o' : wf o -> copy_from_extent o e inv =
   exists m, obj_mask o e inv = Ok (Some m) /\ selection m (cell_mask m (cells o)) o o'.
 Proof.
   intros W. unfold copy_from_extent. destruct (obj_mask o e inv) as [[m|]|] eqn:M; try discriminate.
-  destruct (masked_copy o (Some m) None) as [o1|] eqn:C; [|discriminate]. intros H; injection H as <-.
+  destruct (masked_copy repaired o (Some m) None) as [o1|] eqn:C; [|discriminate]. intros H; injection H as <-.
   exists m. split; [reflexivity|].
-  apply (masked_copy_done o (Some m) None o1 W) in C; auto.
+  apply (masked_copy_done repaired o (Some m) None o1 W) in C; auto.
 Qed.
 
 Lemma copy_from_extent_none o e inv : copy_from_extent o e inv = CNone <-> obj_mask o e inv = Ok None.
 Proof.
   unfold copy_from_extent. destruct (obj_mask o e inv) as [[m|]|]; split; intros H; try discriminate; try reflexivity.
-  destruct (masked_copy o (Some m) None); discriminate.
+  destruct (masked_copy repaired o (Some m) None); discriminate.
 Qed.
 
 (* the copy never fails once a mask was returned *)
@@ -277,35 +277,38 @@ Definition no_text (ks : list kid) : Prop := Forall (fun k => kkind k <> KText) 
 Lemma not_text_eqb k : k <> KText -> dkind_eqb k KText = false.
 Proof. destruct k; try reflexivity. congruence. Qed.
 
+Lemma not_text_empty k v : k <> KText -> text_empty k v = false.
+Proof. intros H. unfold text_empty. rewrite (not_text_eqb k H). reflexivity. Qed.
+
 Lemma copy_kids_total nv nc ovm ocm : forall ks Nv Nc, no_text ks ->
   kids_len AVertex Nv ks -> kids_len ACell Nc ks ->
   (forall m, ovm = Some m -> length m = Nv /\ nv = count m) ->
   (forall m, ocm = Some m -> length m = Nc /\ nc = count m) ->
-  exists ks', copy_kids nv nc ovm ocm ks = Ok ks'.
+  exists ks', copy_kids repaired nv nc ovm ocm ks = Ok ks'.
 Proof.
   induction ks as [|k r IH]; intros Nv Nc HT HLv HLc Hv Hc; simpl; [eexists; reflexivity|].
   assert (HLv' : kids_len AVertex Nv r) by (intros k0 v0 Hin; apply HLv; right; exact Hin).
   assert (HLc' : kids_len ACell Nc r) by (intros k0 v0 Hin; apply HLc; right; exact Hin).
   inversion HT as [|? ? HTk HTr]; subst. pose proof (not_text_eqb _ HTk) as NT.
   destruct (IH Nv Nc HTr HLv' HLc' Hv Hc) as [r' Hr]. rewrite Hr.
-  assert (D : exists k', data_copy match kassoc k with AVertex => nv | ACell => nc | AObject => 1 end
+  assert (D : exists k', data_copy repaired match kassoc k with AVertex => nv | ACell => nc | AObject => 1 end
                            match kassoc k with AVertex => ovm | ACell => ocm | AObject => None end k = Ok k').
   { unfold data_copy. destruct (kvals k) as [v|] eqn:Ev; [|destruct (kassoc k); try destruct ovm; try destruct ocm; eexists; reflexivity].
     destruct (kassoc k) eqn:Ea.
     - destruct ovm as [m|]; [|eexists; reflexivity]. destruct (Hv m eq_refl) as [L N].
       assert (Lv : length v = Nv) by (apply (HLv k v); [left; reflexivity|exact Ea|exact Ev]).
-      rewrite L, Lv, Nat.eqb_refl. simpl. rewrite NT, andb_false_r.
+      rewrite L, Lv, Nat.eqb_refl. simpl. rewrite NT, andb_false_r. simpl.
       assert (Hsel : length (if nv <? Nv then select m v else fill_masked (ndv (kkind k)) m v) = nv).
       { destruct (nv <? Nv) eqn:E2; [rewrite select_length; lia|]. apply Nat.ltb_ge in E2.
         pose proof (count_le_length m). rewrite fill_masked_all_true; lia. }
-      rewrite format_length_eq by exact Hsel. eexists; reflexivity.
+      rewrite format_length_eq by exact Hsel. rewrite (not_text_empty _ _ HTk). eexists; reflexivity.
     - destruct ocm as [m|]; [|eexists; reflexivity]. destruct (Hc m eq_refl) as [L N].
       assert (Lv : length v = Nc) by (apply (HLc k v); [left; reflexivity|exact Ea|exact Ev]).
-      rewrite L, Lv, Nat.eqb_refl. simpl. rewrite NT, andb_false_r.
+      rewrite L, Lv, Nat.eqb_refl. simpl. rewrite NT, andb_false_r. simpl.
       assert (Hsel : length (if nc <? Nc then select m v else fill_masked (ndv (kkind k)) m v) = nc).
       { destruct (nc <? Nc) eqn:E2; [rewrite select_length; lia|]. apply Nat.ltb_ge in E2.
         pose proof (count_le_length m). rewrite fill_masked_all_true; lia. }
-      rewrite format_length_eq by exact Hsel. eexists; reflexivity.
+      rewrite format_length_eq by exact Hsel. rewrite (not_text_empty _ _ HTk). eexists; reflexivity.
     - eexists; reflexivity. }
   destruct D as [k' Dk]. rewrite Dk. eexists; reflexivity.
 Qed.
@@ -318,7 +321,7 @@ Proof.
   destruct (ok o) eqn:Ek.
   - rewrite L, Nat.eqb_refl. simpl.
     destruct (Wp eq_refl) as [Wp1 Wp2].
-    assert (T : exists ks', copy_kids (length (select m (verts o))) 0 (Some m) (Some m) (kids o) = Ok ks').
+    assert (T : exists ks', copy_kids repaired (length (select m (verts o))) 0 (Some m) (Some m) (kids o) = Ok ks').
     { (* no cell children on Points: the cell mask argument is never used *)
       clear M. pose proof (wf_kids_len_v o W) as HLv. revert HLv Wp2 HT. generalize (kids o).
       induction l as [|k r IH]; intros HLv Hn HT; simpl; [eexists; reflexivity|].
@@ -328,11 +331,11 @@ Proof.
       unfold not_cell in Hk. destruct (kassoc k) eqn:Ea; [|congruence|].
       - unfold data_copy. destruct (kvals k) as [v|] eqn:Ev; [|eexists; reflexivity].
         assert (Lv : length v = length (verts o)) by (apply (HLv k v); [left; reflexivity|exact Ea|exact Ev]).
-        rewrite L, Lv, Nat.eqb_refl. simpl. rewrite NT, andb_false_r. rewrite select_length by exact L.
+        rewrite L, Lv, Nat.eqb_refl. simpl. rewrite NT, andb_false_r. simpl. rewrite select_length by exact L.
         assert (Hsel : length (if count m <? length (verts o) then select m v else fill_masked (ndv (kkind k)) m v) = count m).
         { destruct (count m <? length (verts o)) eqn:E2; [rewrite select_length; lia|]. apply Nat.ltb_ge in E2.
           pose proof (count_le_length m). rewrite fill_masked_all_true; lia. }
-        rewrite format_length_eq by exact Hsel. eexists; reflexivity.
+        rewrite format_length_eq by exact Hsel. rewrite (not_text_empty _ _ HTk). eexists; reflexivity.
       - unfold data_copy. destruct (kvals k); eexists; reflexivity. }
     destruct T as [ks' Hk]. rewrite Hk. eexists; reflexivity.
   - rewrite L, Nat.eqb_refl. simpl.
